@@ -180,12 +180,12 @@ ADDED = {
  "C09": "Added since: sibling volFrac names, non-finite values in covered cells, histories on one reader, command line vs API, the 7-level 12-field plotfile. Later: 27 + 20 boxes over five / three files, level prefix.",
  "C10": "Added since: all-zero fine boxes, two boxes of one file out of header order, field names differing by case, the 7-level 12-field plotfile gridded at 1024 x 128 x 128. Later: nine / eight files read with 1, 3, 16 CPUs, level prefix, a plotfile marinated before.",
  "C11": "Added since: recipes without docstring and passed as a callable, two recipe files with one base name, two cooks on one Chef object, command line vs API, file numbers with gaps, the 7-level 12-field plotfile. Later: two recipe files with one base name, level prefix, a planar flame, 1500 atm.",
- "C12": "Added since: pool size explored over 1 / 2 / 3 / 5 / 16, asynchronous pool calls, chdir histories and the two-cook Cantera history under the real pools, a plane that the finest level does not meet. Later: serial counterpart of reader selections, level iteration observed as a sequence, NaN / negative temperature cook, a differing replay of one schedule is a violation.",
+ "C12": "Added since: pool size explored over 1 / 2 / 3 / 5 / 16, asynchronous pool calls, chdir histories and the two-cook Cantera history under the real pools, a plane that the finest level does not meet. Later: serial counterpart of reader selections, level iteration observed as a sequence, NaN / negative temperature cook, a differing replay of one schedule is a violation; two Chefs alive at once (A constructed, X constructed, A cooked: serial, controlled pool, real pool); lists of consecutive fields read box by box with all results held.",
  "C13": "Added since: path shapes ./x, trailing slash, absolute; output = the existing directory holding the inputs; the same output written twice with other options; directory names with dots; audit resolves dir_fd-relative paths. Later: truncated input binary, inputs named through symbolic links, names without the chk / plt prefix.",
- "C14": "Added since: one reader object per state shared by all its combines, a chef event keeping two fields out of header order, a field with huge values.",
+ "C14": "Added since: one reader object per state shared by all its combines, a chef event keeping two fields out of header order, a field with huge values. Later: thermochemical round trip (cook with kept fields by user solution-array recipe / ENT / SDi / HRR, combine back in both orders, strain all; kept and original components bit-equal).",
  "C15": "Added since: histories on one stream object, class-B field lists (run ends around a permuted / repeated interior), the 7-level 12-field plotfile. Later: case-variant names, 27 + 20 boxes (schedule window bounded), level prefix.",
  "C16": "Added since: extreme geometries, schedules of the per-level pool call, histories on one Mandoline object, command line vs API (default verbosity), the 7-level 12-field plotfile (closed-form oracle). Later: every lattice point also for the non-dyadic geometry, level prefix, command line position 0.0.",
- "C17": "Added since: extreme geometries, species names with nested parentheses, the command line over all option combinations, a 7-level checkpoint with ten state components. Later: 27 + 20 boxes, gapped file numbers, species sums drifted by 1e-6.",
+ "C17": "Added since: extreme geometries, species names with nested parentheses, the command line over all option combinations, a 7-level checkpoint with ten state components. Later: 27 + 20 boxes, gapped file numbers, species sums drifted by 1e-6, default output directory for eight ways of naming the checkpoint (trailing / and /., ./x, a 'latest' symlink, names without 'chk', '.' from inside it).",
  "C18": "Added since: huge values, nested parentheses, marinate after an in-place rewrite, directory names with dots and a marinated sibling, NaN in the tables of level 0 only vs of finer levels only. Later: all 32 option combinations of menu, one field on many-box levels, square tables, names with blanks, minuterie / menu after an in-place rewrite, marinate through link/../name.",
  "C19": "Added since: extreme geometries, selectors re-used across queries, adjacent fields in descending order, the 7-level 12-field plotfile. Later: magnitudes 1e12 / 1e-15 and non-finite values elsewhere in the box, selection lists re-used on a second plotfile, run-then-far lists on twelve fields, origin-straddling geometry, other spellings of a centre, descending box order, level prefix.",
  "C20": "Added since: three field-selector forms, multi-box selectors (rotation, reversed slice, mask), one stream object re-used, the 7-level 12-field base. Later: run-like field lists, 'name present but no file' corruptions.",
